@@ -242,6 +242,19 @@ sys.exit(replay(%(mod)r, %(case)r, %(point)s, %(kinds)r))
 '''
 
 
+def _replay_fresh(modname, casename, point, kinds):
+    import subprocess
+    import sys
+
+    src = ("import sys; sys.path.insert(0, %r)\nfrom vlib import env; env.setup()\nfrom vlib.ucase import replay\n"
+           "sys.exit(replay(%r, %r, %r, %r))\n" % (env.VERIF, modname, casename, point, kinds))
+    try:
+        r = subprocess.run([sys.executable, "-c", src], stdout=subprocess.DEVNULL, stderr=subprocess.DEVNULL, timeout=120)
+        return r.returncode == 1
+    except Exception:
+        return False
+
+
 def task_case(modname, casename, kinds=("units", "formula", "warn"), deadline_s=120):
     mod = importlib.import_module(modname)
     case = [c for c in mod.CASES if c["name"] == casename][0]
@@ -270,12 +283,10 @@ def task_case(modname, casename, kinds=("units", "formula", "warn"), deadline_s=
         import contextlib
         import io
 
-        for cand in [pt] + _generic_points(case, pt):
-            try:
-                with contextlib.redirect_stdout(io.StringIO()):
-                    hit = replay(modname, casename, {k: str(v) for k, v in cand.items()}, tuple(kinds))
-            except Exception:
-                hit = 0
+        for cand in [pt] + [dict(pt, **{k: Fraction(v) for k, v in h.items()}) for h in case.get("hints", [])] + _generic_points(case, pt):
+            # in a fresh interpreter: the exploration above may have left symbolic values in module/class-level state of the
+            # code under test (that is exactly what a stale-cache defect does), which must not leak into the concrete evaluation
+            hit = _replay_fresh(modname, casename, {k: str(v) for k, v in cand.items()}, tuple(kinds))
             if hit:
                 pt = cand
                 break
